@@ -35,6 +35,13 @@ type cnItem struct {
 type cnSub struct {
 	V int64
 }
+
+// cnBlob: an object keyed by a []byte field (a binary(16) primary key): the diff of a live subscription meets a __key
+// that cannot be compared (findings C15-6 / C02-1)
+type cnBlob struct {
+	Key  []byte `graphql:"key,key"`
+	Name string
+}
 type cnBox struct{}
 type CnCat struct{ Lives int64 }
 type CnDog struct {
@@ -241,6 +248,20 @@ func cnSchema(db *cnDB, rec *cnRec) *graphql.Schema {
 		}
 		return out, nil
 	})
+	q.FieldFunc("blobs", func(ctx context.Context) ([]*cnBlob, error) {
+		if err := enter(ctx, "blobs"); err != nil {
+			return nil, err
+		}
+		db.mu.Lock()
+		defer db.mu.Unlock()
+		var out []*cnBlob
+		for _, it := range db.items {
+			if !it.Gone {
+				out = append(out, &cnBlob{Key: []byte{byte(it.ID), 0xff}, Name: it.Name})
+			}
+		}
+		return out, nil
+	})
 	q.FieldFunc("pet", func(ctx context.Context) (*cnPet, error) {
 		if err := enter(ctx, "pet"); err != nil {
 			return nil, err
@@ -283,6 +304,7 @@ func cnSchema(db *cnDB, rec *cnRec) *graphql.Schema {
 	}, schemabuilder.Expensive)
 	sb.Object("cnItem", cnItem{})
 	sb.Object("cnSub", cnSub{})
+	sb.Object("cnBlob", cnBlob{})
 	sb.Object("CnCat", CnCat{})
 	sb.Object("CnDog", CnDog{})
 	m := sb.Mutation()
@@ -307,9 +329,11 @@ var cnQueries = []string{
 	"query D { items { id name } n pet { ... on CnCat { lives } } }",
 	"query E { flaky n }",
 	"query F { n box { m } }",
-	// a client may alias any field as __key (finding C15-6: a list there made the first re-run's diff panic and took
-	// the process down)
+	// the alias __key is refused since the repair C02-1 (a list under it made the first re-run's diff panic, a scalar
+	// was lost from every update): a subscription that is refused when it is parsed
 	"query G { __key: items { id name } n }",
+	// objects whose key is a []byte: a __key that cannot be compared
+	"query H { blobs { name } n }",
 }
 
 // ---- fake socket -------------------------------------------------------------------------------------
